@@ -7,7 +7,9 @@ package h_promqlx
 import (
 	"context"
 	"fmt"
+	"log/slog"
 	"math"
+	"os"
 	"sort"
 	"strconv"
 	"strings"
@@ -19,6 +21,7 @@ import (
 	"github.com/prometheus/prometheus/promql"
 	"github.com/prometheus/prometheus/promql/parser"
 	"github.com/prometheus/prometheus/storage"
+	"github.com/prometheus/prometheus/tsdb"
 	"github.com/prometheus/prometheus/util/teststorage"
 )
 
@@ -32,7 +35,13 @@ var ag_ParserOpts = parser.Options{
 
 // ag_NewEngine builds a real engine. delayedName selects --enable-feature=promql-delayed-name-removal.
 func ag_NewEngine(delayedName bool, maxSamples int) *promql.Engine {
+	var lg *slog.Logger
+	if os.Getenv("VERIF_REPLAY") != "" {
+		// replay: let the engine log the stack trace of a recovered runtime panic
+		lg = slog.New(slog.NewTextHandler(os.Stdout, nil))
+	}
 	return promql.NewEngine(promql.EngineOpts{
+		Logger:                   lg,
 		MaxSamples:               maxSamples,
 		Timeout:                  10 * time.Minute,
 		NoStepSubqueryIntervalFn: func(int64) int64 { return 60000 },
@@ -46,7 +55,13 @@ func ag_NewEngine(delayedName bool, maxSamples int) *promql.Engine {
 
 // ag_NewStorage opens a throw-away TSDB (under TMPDIR) without background compaction.
 func ag_NewStorage() (*teststorage.TestStorage, error) {
-	s, err := teststorage.NewWithError()
+	// A small head (few stripes, no exemplar ring) keeps opening, closing and garbage-collecting
+	// the many throw-away storages cheap; it does not change what queries return.
+	s, err := teststorage.NewWithError(func(o *tsdb.Options) {
+		o.StripeSize = 16
+		o.EnableExemplarStorage = false
+		o.MaxExemplars = 0
+	})
 	if err != nil {
 		return nil, err
 	}
@@ -101,6 +116,17 @@ func ag_F(f float64) string {
 	return strconv.FormatFloat(f, 'g', -1, 64)
 }
 
+// ag_HString renders a histogram; FloatHistogram.String itself may panic on a malformed
+// histogram, which must not take the harness down.
+func ag_HString(h *histogram.FloatHistogram) (s string) {
+	defer func() {
+		if x := recover(); x != nil {
+			s = fmt.Sprintf("!FloatHistogram.String panicked: %v", x)
+		}
+	}()
+	return h.String()
+}
+
 func ag_VecString(v []ag_Sample) string {
 	var sb strings.Builder
 	sb.WriteByte('[')
@@ -111,7 +137,7 @@ func ag_VecString(v []ag_Sample) string {
 		sb.WriteString(ag_LKey(s.L))
 		sb.WriteByte(' ')
 		if s.H != nil {
-			sb.WriteString(s.H.String())
+			sb.WriteString(ag_HString(s.H))
 		} else {
 			sb.WriteString(ag_F(s.V))
 		}
@@ -161,7 +187,7 @@ func (o *ag_Outcome) ag_Canon() string {
 				fmt.Fprintf(&sb, " %d:%s", p.T, ag_F(p.F))
 			}
 			for _, p := range s.Histograms {
-				fmt.Fprintf(&sb, " %d:%s", p.T, p.H.String())
+				fmt.Fprintf(&sb, " %d:%s", p.T, ag_HString(p.H))
 			}
 			sb.WriteByte(';')
 		}
